@@ -701,6 +701,7 @@ class Program:
         inv = normalize.load_inventory(os.path.join(os.path.dirname(os.path.abspath(__file__)), "reference_functions.txt"))
         self.inventory = inv
         self.inlined_helper_calls = normalize.inline_new_helpers(self, inv, REPO)
+        self.unrolled_tables = normalize.unroll_constant_tables(self, REPO)
         self.inlined_lambda_calls = 0
         for f in self.functions.values():
             if f.get("file", "").startswith(REPO) and "/lib/" not in f.get("file", ""):
